@@ -95,6 +95,26 @@ pub fn eval_mem(a: &[&str]) -> Option<String> {
     Some(format!("OK {}|{}|{}|{}|{}", nats(scs.shape()), bits(scs.inner().as_slice()), sites, skipped, if kinds.is_empty() { "-".into() } else { kinds }))
 }
 
+/// the first `'contig:position'` (or `contig:position` after "site") in an error text, whatever the words around it
+fn quoted_site(stderr: &str) -> Option<String> {
+    for line in stderr.lines().rev() {
+        let b: Vec<char> = line.chars().collect();
+        let mut i = 0;
+        while i < b.len() {
+            if b[i] == '\'' || b[i] == '"' || b[i] == '`' {
+                let q = b[i];
+                if let Some(len) = b[i + 1..].iter().position(|c| *c == q) {
+                    let inner: String = b[i + 1..i + 1 + len].iter().collect();
+                    if let Some((c, p)) = inner.rsplit_once(':') { if !c.is_empty() && !p.is_empty() && p.chars().all(|d| d.is_ascii_digit()) { return Some(inner); } }
+                    i += len + 2; continue;
+                }
+            }
+            i += 1;
+        }
+    }
+    None
+}
+
 pub fn build_err_tag(s: &str) -> String {
     if s.contains("empty samples mapping") { "empty".into() }
     else if let Some(r) = s.strip_prefix("unknown sample ") { format!("unknown {}", r.trim()) }
@@ -112,8 +132,19 @@ pub struct CliSpec<'a> { pub container: &'a str, pub transport: &'a str, pub thr
 
 fn bgzf_end_of(layout: u64) -> vcf::BgzfEnd { match (layout / 4) % 3 { 0 => vcf::BgzfEnd::Marker, 1 => vcf::BgzfEnd::None, _ => vcf::BgzfEnd::StoredEmpty } }
 
+/// Layout numbers: `layout % 4` the block partition, `(layout / 4) % 3` how a BGZF stream ends, and `(layout / 12) % 4` a variant of the
+/// stream's two ends: 1 = the VCF text does not end in a newline and a block boundary falls inside (and right before the end of) its
+/// last line; 2 = the BGZF stream starts with an empty block; 3 = the first BGZF block holds two bytes only.
 pub fn container_bytes(cs: &CallSet, container: &str, layout: u64) -> Option<Vec<u8>> {
-    let text = vcf::vcf_text(cs);
+    let variant = (layout / 12) % 4;
+    let mut text = vcf::vcf_text(cs);
+    if variant == 1 && !cs.recs.is_empty() && text.last() == Some(&b'\n') { text.pop(); }
+    let ends = |data: &[u8], mut c: Vec<usize>, is_text: bool| -> Vec<usize> {
+        if variant == 1 && is_text { let l = data.len(); let last_line = data.iter().rposition(|b| *b == b'\n').map(|p| p + 1).unwrap_or(0); c.push(last_line + (l - last_line) / 2); c.push(l.saturating_sub(1)); c.push(l.saturating_sub(2)); }
+        if variant == 3 { c.push(2); }
+        c
+    };
+    let lead = |mut out: Vec<u8>| -> Vec<u8> { if variant == 2 { let mut o = vcf::bgzf_block(&[]); o.append(&mut out); o } else { out } };
     let mut r = crate::rng::Rng::new(layout);
     let cuts = |len: usize, r: &mut crate::rng::Rng| -> Vec<usize> {
         match layout % 4 {
@@ -126,9 +157,9 @@ pub fn container_bytes(cs: &CallSet, container: &str, layout: u64) -> Option<Vec
     match container {
         "vcf" => Some(text),
         // layouts 4..7 repeat 0..3 without the end-of-file marker block (4, 5) or with an empty stored block in its place (6, 7)
-        "vcfgz" => { let c = cuts(text.len(), &mut r); Some(vcf::bgzf_end(&text, &c, layout % 2 == 0, bgzf_end_of(layout))) }
+        "vcfgz" => { let c = ends(&text, cuts(text.len(), &mut r), true); Some(lead(vcf::bgzf_end(&text, &c, layout % 2 == 0, bgzf_end_of(layout)))) }
         "rawbcf" => raw_bcf(cs, &text),
-        "bcf" => { let raw = raw_bcf(cs, &text)?; let c: Vec<usize> = if layout % 4 == 1 { (0..1 + raw.len() / 23).map(|_| r.below(raw.len().max(1) as u64) as usize).collect() } else { cuts(raw.len(), &mut r) }; Some(vcf::bgzf_end(&raw, &c, layout % 2 == 1, bgzf_end_of(layout))) }
+        "bcf" => { let raw = raw_bcf(cs, &text)?; let c: Vec<usize> = if layout % 4 == 1 { (0..1 + raw.len() / 23).map(|_| r.below(raw.len().max(1) as u64) as usize).collect() } else { cuts(raw.len(), &mut r) }; let c = ends(&raw, c, false); Some(lead(vcf::bgzf_end(&raw, &c, layout % 2 == 1, bgzf_end_of(layout)))) }
         _ => None,
     }
 }
@@ -183,10 +214,18 @@ pub fn canon(o: &cli::Out) -> String {
     let summary = o.stderr.find("Skipped ").and_then(|i| {
         let rest = &o.stderr[i + 8..];
         let end = rest.find(" sites")?; Some(rest[..end].to_string())
-    }).unwrap_or_else(|| "-".into());
+    }).unwrap_or_else(|| {
+        // a summary in a wording this harness does not know (a line that mentions skipping and carries numbers): reported as such, so that
+        // the comparison can say "not checkable" instead of "wrong"
+        match o.stderr.lines().find(|l| l.to_ascii_lowercase().contains("skip") && l.chars().any(|c| c.is_ascii_digit()) && !l.contains("Skipping sample")) {
+            Some(l) => format!("?{}", l.chars().filter(|c| c.is_ascii_digit() || *c == '/' || *c == ' ').collect::<String>().split_whitespace().collect::<Vec<_>>().join(",")),
+            None => "-".into(),
+        }
+    });
     let site_after = |pat: &str| -> Option<String> { o.stderr.find(pat).map(|i| { let r = &o.stderr[i + pat.len()..]; r[..r.find('\'').unwrap_or(0)].to_string() }) };
     let (errkind, errsite) = if let Some(s) = site_after("encountered genotype error at site '") { ("genotype".to_string(), s) }
         else if let Some(s) = site_after("genotype at site '") { ("strict".to_string(), s) }
+        else if let (true, Some(site)) = (class == "ERR", quoted_site(&o.stderr)) { ("site?".to_string(), site) }   // an error naming a site, in a wording this harness does not know
         else if class == "ERR" { (format!("build:{}", build_err_tag(o.stderr.lines().last().unwrap_or("").trim())), "-".to_string()) }
         else { ("-".to_string(), "-".to_string()) };
     let out = if o.stdout.is_empty() { "-".to_string() } else { String::from_utf8_lossy(&o.stdout).replace('\n', "\\n").replace('\t', "\\t") };
@@ -273,6 +312,50 @@ pub fn bytes_case(cs: &CallSet, container: &str, layout: u64, cols: &str, sample
 }
 
 /// `c12.same extras cols samples project strict precision records` : all containers x transports x threads x layouts x repeats
+/// `<p>.mass nsamples npops nrec project missing-per-mille seed` — a call set far larger than the model is run on (tens of thousands of
+/// records, up to dozens of samples): `sfs create` with projection through the binary; reported are the number of records, the number
+/// of sites the summary says were skipped and the mass of the printed spectrum (precision 9). By the conservation theorem of C10 the
+/// three are tied whatever the records are: mass + skipped = records.
+pub fn eval_mass(ctx: &Ctx, a: &[&str]) -> Option<String> {
+    let (ns, np, nrec): (usize, usize, usize) = (a[0].parse().ok()?, a[1].parse().ok()?, a[2].parse().ok()?);
+    let proj = a[3]; let miss: u64 = a[4].parse().ok()?; let seed: u64 = a[5].parse().ok()?;
+    let mut rng = crate::rng::Rng::new(seed);
+    let mut text = String::with_capacity(nrec * (ns * 4 + 30));
+    text.push_str("##fileformat=VCFv4.3\n##contig=<ID=1,length=100000000>\n##FORMAT=<ID=GT,Number=1,Type=String,Description=\"Genotype\">\n#CHROM\tPOS\tID\tREF\tALT\tQUAL\tFILTER\tINFO\tFORMAT");
+    for i in 0..ns { text.push_str(&format!("\ts{i}")); }
+    text.push('\n');
+    for r in 0..nrec {
+        text.push_str(&format!("1\t{}\t.\tA\tC\t.\t.\t.\tGT", r + 1));
+        // the ALT frequency of a record varies, so that the (called, ALT) configurations spread out
+        let f = rng.below(1000);
+        for _ in 0..ns {
+            text.push('\t');
+            if rng.below(1000) < miss { text.push_str("./."); } else {
+                let x = (rng.below(1000) < f) as u8; let y = (rng.below(1000) < f) as u8;
+                text.push((b'0' + x) as char); text.push(if rng.chance(1, 2) { '/' } else { '|' }); text.push((b'0' + y) as char);
+            }
+        }
+        text.push('\n');
+    }
+    let mut args = vec!["create".to_string(), "--precision".into(), "9".into()];
+    if np > 1 { args.push("-s".into()); args.push((0..ns).map(|i| format!("s{i}=P{}", i * np / ns)).collect::<Vec<_>>().join(",")); }
+    if let Some(p) = proj.strip_prefix("ind:") { args.push("-p".into()); args.push(p.to_string()); }
+    else if let Some(p) = proj.strip_prefix("shape:") { args.push("--project-shape".into()); args.push(p.to_string()); }
+    let o = cli::run_sfs(&ctx.sfs_bin, &args, text.as_bytes());
+    let class = cli::class(&o);
+    if class != "OK" { return Some(format!("{class}|{}", o.stderr.lines().last().unwrap_or("").replace('\t', " "))); }
+    let out = String::from_utf8_lossy(&o.stdout);
+    let mut lines = out.lines();
+    let header = lines.next().unwrap_or("").to_string();
+    let mass: f64 = lines.next().unwrap_or("").split_whitespace().filter_map(|t| t.parse::<f64>().ok()).sum();
+    // the summary's first number is the number of skipped sites (no summary line: none skipped)
+    let skipped: String = match o.stderr.lines().find(|l| l.to_ascii_lowercase().contains("skip") && !l.contains("Skipping sample")) {
+        Some(l) => { let i = l.to_ascii_lowercase().find("skip").unwrap_or(0); l[i..].chars().skip_while(|c| !c.is_ascii_digit()).take_while(|c| c.is_ascii_digit()).collect() }
+        None => "0".into(),
+    };
+    Some(format!("OK|{nrec}|{}|{:016x}|{header}", if skipped.is_empty() { "?".into() } else { skipped }, mass.to_bits()))
+}
+
 pub fn eval_same(ctx: &Ctx, a: &[&str]) -> Option<String> {
     let cs = CallSet { cols: a[1].split(',').map(|s| s.to_string()).collect(), recs: parse_records(a[6]), extras: a[0] == "1", wide: a[0].strip_prefix('w').and_then(|x| x.parse().ok()).unwrap_or(0) };
     let samples = parse_samples(a[2]);
@@ -280,7 +363,7 @@ pub fn eval_same(ctx: &Ctx, a: &[&str]) -> Option<String> {
     let precision = if a[5] == "-" { None } else { a[5].parse().ok() };
     let thorough = ctx.tier_thorough;
     let threads: &[usize] = if thorough { &[1, 2, 3, 4, 8, 16] } else { &[1, 3, 16] };
-    let layouts: &[u64] = if thorough { &[0, 1, 2, 3, 6, 5, 11] } else { &[1, 5, 10] };
+    let layouts: &[u64] = if thorough { &[0, 1, 2, 3, 6, 5, 11, 12, 13, 14, 18, 24, 25, 26, 31, 36, 37, 38, 46] } else { &[1, 5, 10, 14, 25, 38] };
     let repeats = if thorough { 3 } else { 2 };
     let mut first: Option<(String, String)> = None;
     let mut n = 0;
